@@ -1,0 +1,14 @@
+//go:build verif
+
+package pool
+
+// VerifToDeviceOffset evaluates blockDeviceBackedFile.toDeviceOffset()
+// for a pool with the given sector size. It is only used by the
+// verification harness in /verif to compare the expression, on boundary
+// values of the sector number, with its fixed-width model in Lean.
+func VerifToDeviceOffset(sectorSizeBytes int, sector uint32, offsetWithinSector int) int64 {
+	f := &blockDeviceBackedFile{
+		fp: &blockDeviceBackedFilePool{sectorSizeBytes: sectorSizeBytes},
+	}
+	return f.toDeviceOffset(sector, offsetWithinSector)
+}
